@@ -33,11 +33,13 @@ CHECKS['C07'] = dict(
               'intended protocol and refutes the pinned and by-path protocols; TLC-simulated behaviours are executed in one real '
               'interpreter each and compared with fresh-process references; random histories and a deterministic edit-and-reload '
               'family (every ordered pair of rule-file contents on the same path, loads in the order the commands use) validated by '
-              'Trace_Process.tla',
+              'Trace_Process.tla; a long-lived engine object (ObjParse / ObjMatch, negative config staleaux) covers parse() called again '
+              'on the same MerchantEngine',
     text='The cache protocol of get_all_rules/normalize_merchant/parse_expression is an explicit state machine; TLC exhausts it '
          'and generates operation sequences which are replayed into the real code, every classification being compared with the '
          'same call made in a freshly forked interpreter; recorded random histories are validated by the trace spec.',
-    note='rule semantics uninterpreted in the model; a fixed concrete world of rule files/transactions/expressions chosen to make '
+    note='rule semantics uninterpreted in the model; a fixed concrete world of rule files/transactions (two pairs that agree in '
+         'description/amount/date/source/location and differ in captured columns resp. supplemental data)/expressions chosen to make '
          'stale state visible; fork() of a parent that has only imported tally is taken as a fresh process',
     design='§4 C07')
 
@@ -60,7 +62,8 @@ CHECKS['C20'] = dict(
               'Trace_Commands.tla',
     text='The write-set of every command is specified; TLC explores all short histories; hundreds of histories run against the real '
          'CLI with content hashes of every file checked after each command and the abstract tree compared with the spec\'s prediction.',
-    note='budgets in both folder layouts, LF and CRLF user files, paths with metacharacters; fixed concrete contents per content '
+    note='budgets in both folder layouts, LF and CRLF user files, paths with metacharacters, the config directory addressed in six ways (found, relative with '
+         'trailing separator, ./relative, absolute, "." from inside, TALLY_CONFIG); fixed concrete contents per content '
          'class; non-interactive runs',
     design='§4 C20')
 
